@@ -21,8 +21,9 @@ func init() {
 }
 
 type lockState struct {
-	held   byte // 'U', 'R', 'W'
-	defer_ byte // 0, 'R', 'W' : a deferred unlock of that kind is pending
+	held   byte   // 'U', 'R', 'W'
+	defer_ byte   // 0, 'R', 'W' : a deferred unlock of that kind is pending
+	owner  string // canonical path of the object whose mutex is held ("" when unlocked)
 }
 
 func (s lockState) String() string {
@@ -34,9 +35,10 @@ func (s lockState) String() string {
 }
 
 type lockEvent struct {
-	pos  token.Pos
-	kind string // lock, rlock, unlock, runlock, defer-unlock, defer-runlock, mapread, mapwrite, fieldread, fieldwrite, recv, drive
-	desc string
+	pos   token.Pos
+	kind  string // lock, rlock, unlock, runlock, defer-unlock, defer-runlock, mapread, mapwrite, fieldread, fieldwrite, recv, drive
+	desc  string
+	owner string // canonical path of the object owning the mutex / the protected field
 }
 
 type lockAnalysis struct {
@@ -56,7 +58,11 @@ type lockAnalysis struct {
 func (la *lockAnalysis) eventsOf(f *FuncSrc, n ast.Node) []lockEvent {
 	info := f.Pkg.TypesInfo
 	var evs []lockEvent
-	add := func(pos token.Pos, kind, desc string) { evs = append(evs, lockEvent{pos, kind, desc}) }
+	add := func(pos token.Pos, kind, desc string) { evs = append(evs, lockEvent{pos: pos, kind: kind, desc: desc}) }
+	// addO records an event on the mutex / protected field selected by fe (owner = the object before the field)
+	addO := func(pos token.Pos, kind, desc string, fe ast.Expr) {
+		evs = append(evs, lockEvent{pos: pos, kind: kind, desc: desc, owner: la.ownerOf(info, fe)})
+	}
 	isMuxRecv := func(e ast.Expr) bool {
 		// X.Mux (pointer to RWMutex field of PreparedStmtDB)
 		return fieldSel(info, e, la.muxF)
@@ -84,10 +90,10 @@ func (la *lockAnalysis) eventsOf(f *FuncSrc, n ast.Node) []lockEvent {
 				if sel, ok := x.Call.Fun.(*ast.SelectorExpr); ok && isMuxRecv(sel.X) {
 					switch fn {
 					case la.rw["Unlock"]:
-						add(x.Pos(), "defer-unlock", exprStr(sel.X))
+						addO(x.Pos(), "defer-unlock", exprStr(sel.X), sel.X)
 						return
 					case la.rw["RUnlock"]:
-						add(x.Pos(), "defer-runlock", exprStr(sel.X))
+						addO(x.Pos(), "defer-runlock", exprStr(sel.X), sel.X)
 						return
 					}
 				}
@@ -106,14 +112,14 @@ func (la *lockAnalysis) eventsOf(f *FuncSrc, n ast.Node) []lockEvent {
 					walk(ix.Index, inGo)
 					written[ix.X] = true
 					if la.exemptWrite == nil || !la.exemptWrite(f, ix.X) {
-						add(ix.Pos(), "mapwrite", "insert into "+exprStr(ix.X))
+						addO(ix.Pos(), "mapwrite", "insert into "+exprStr(ix.X), ix.X)
 					}
 					continue
 				}
 				if fieldSel(info, l, la.stmtsF) {
 					written[l] = true
 					if la.exemptWrite == nil || !la.exemptWrite(f, l) {
-						add(l.Pos(), "fieldwrite", "assign "+exprStr(l))
+						addO(l.Pos(), "fieldwrite", "assign "+exprStr(l), l)
 					}
 					continue
 				}
@@ -132,14 +138,14 @@ func (la *lockAnalysis) eventsOf(f *FuncSrc, n ast.Node) []lockEvent {
 			// builtin delete on the map
 			if id, ok := x.Fun.(*ast.Ident); ok && id.Name == "delete" && len(x.Args) == 2 && fieldSel(info, x.Args[0], la.stmtsF) {
 				walk(x.Args[1], inGo)
-				add(x.Pos(), "mapwrite", "delete from "+exprStr(x.Args[0]))
+				addO(x.Pos(), "mapwrite", "delete from "+exprStr(x.Args[0]), x.Args[0])
 				return
 			}
 			fn, _ := typeutil.Callee(info, x).(*types.Func)
 			if sel, ok := x.Fun.(*ast.SelectorExpr); ok && fn != nil && isMuxRecv(sel.X) {
 				for name, m := range la.rw {
 					if fn == m {
-						add(x.Pos(), strings.ToLower(name), exprStr(sel.X))
+						addO(x.Pos(), strings.ToLower(name), exprStr(sel.X), sel.X)
 						return
 					}
 				}
@@ -158,14 +164,14 @@ func (la *lockAnalysis) eventsOf(f *FuncSrc, n ast.Node) []lockEvent {
 			if fieldSel(info, x.X, la.stmtsF) {
 				walk(x.Index, inGo)
 				if !la.writesOnly {
-					add(x.Pos(), "mapread", "lookup in "+exprStr(x.X))
+					addO(x.Pos(), "mapread", "lookup in "+exprStr(x.X), x.X)
 				}
 				return
 			}
 		case *ast.SelectorExpr:
 			if fieldSel(info, x, la.stmtsF) && !written[x] {
 				if !la.writesOnly {
-					add(x.Pos(), "fieldread", "read "+exprStr(x))
+					addO(x.Pos(), "fieldread", "read "+exprStr(x), x)
 				}
 				return
 			}
@@ -187,36 +193,67 @@ func (la *lockAnalysis) eventsOf(f *FuncSrc, n ast.Node) []lockEvent {
 	return evs
 }
 
+// ownerOf: the canonical path of the object whose field fe selects (x.Mux -> x, x.Stmts -> x); embedded
+// promotion steps are spelled out so that x.Mux and x.PreparedStmtDB.Stmts name the same owner.
+func (la *lockAnalysis) ownerOf(info *types.Info, fe ast.Expr) string {
+	sel, ok := unparen(fe).(*ast.SelectorExpr)
+	if !ok {
+		return canon(info, fe)
+	}
+	base := canon(info, sel.X)
+	if sl := info.Selections[sel]; sl != nil && len(sl.Index()) > 1 {
+		t := sl.Recv()
+		for _, i := range sl.Index()[:len(sl.Index())-1] {
+			if pt, ok := t.Underlying().(*types.Pointer); ok {
+				t = pt.Elem()
+			}
+			st, ok := t.Underlying().(*types.Struct)
+			if !ok {
+				break
+			}
+			base += "." + st.Field(i).Name()
+			t = st.Field(i).Type()
+		}
+	}
+	return base
+}
+
 func applyLock(st lockState, ev lockEvent) (lockState, string) {
 	switch ev.kind {
 	case "lock":
 		if st.held != 'U' {
 			return st, "acquires the write lock while the mutex is already held (" + st.String() + "): self-deadlock"
 		}
-		st.held = 'W'
+		st.held, st.owner = 'W', ev.owner
 	case "rlock":
 		if st.held != 'U' {
 			return st, "acquires the read lock while the mutex is already held (" + st.String() + ")"
 		}
-		st.held = 'R'
+		st.held, st.owner = 'R', ev.owner
 	case "unlock":
 		if st.held != 'W' {
 			return st, "Unlock without holding the write lock (state " + st.String() + ")"
 		}
-		st.held = 'U'
+		if st.owner != ev.owner {
+			return st, "Unlock of " + ev.owner + "'s mutex while " + st.owner + "'s is the one held"
+		}
+		st.held, st.owner = 'U', ""
 	case "runlock":
 		if st.held != 'R' {
 			return st, "RUnlock without holding the read lock (state " + st.String() + ")"
 		}
-		st.held = 'U'
+		if st.owner != ev.owner {
+			return st, "RUnlock of " + ev.owner + "'s mutex while " + st.owner + "'s is the one held"
+		}
+		st.held, st.owner = 'U', ""
 	case "defer-unlock":
-		if st.held != 'W' || st.defer_ != 0 {
-			return st, "deferred Unlock registered in state " + st.String()
+		if st.held != 'W' || st.defer_ != 0 || st.owner != ev.owner {
+			return st, "deferred Unlock of " + ev.owner + " registered in state " + st.String()
 		}
 		st.defer_ = 'W'
 	case "defer-runlock":
-		if st.held != 'R' || st.defer_ != 0 {
-			return st, "deferred RUnlock registered in state " + st.String()
+		if st.held != 'R' || st.defer_ != 0 || st.owner != ev.owner {
+			return st, "deferred RUnlock of " + ev.owner + " registered in state " + st.String()
 		}
 		st.defer_ = 'R'
 	}
@@ -264,7 +301,7 @@ func (la *lockAnalysis) runLockset(f *FuncSrc) (acquisitions int) {
 						next[ns] = true
 					case "mapread", "fieldread":
 						c := check{"C14.map", ev.desc, ev.pos}
-						if st.held == 'U' {
+						if st.held == 'U' || st.owner != ev.owner {
 							bad[c] = true
 						} else {
 							oks[c] = true
@@ -272,7 +309,7 @@ func (la *lockAnalysis) runLockset(f *FuncSrc) (acquisitions int) {
 						next[st] = true
 					case "mapwrite", "fieldwrite":
 						c := check{"C14.map", ev.desc, ev.pos}
-						if st.held != 'W' {
+						if st.held != 'W' || st.owner != ev.owner {
 							bad[c] = true
 						} else {
 							oks[c] = true
@@ -540,6 +577,84 @@ func checkC14Into(c *Ctx, prefix string) {
 		}
 		return true
 	})
+	// cache-hit condition: an entry prepared on the pool serves every caller, a transaction-bound entry
+	// serves only transaction callers (decided on the truth table of the condition, not on its spelling)
+	{
+		txF := p.Field(stmtT, "Transaction")
+		isTxParam := ""
+		if prep.Type.Params != nil {
+			for _, fl := range prep.Type.Params.List {
+				for _, nm := range fl.Names {
+					if tv, ok := pinfo.Types[fl.Type]; ok {
+						if b, ok := tv.Type.Underlying().(*types.Basic); ok && b.Kind() == types.Bool {
+							isTxParam = nm.Name
+						}
+					}
+				}
+			}
+		}
+		nCond := 0
+		// the comma-ok lookups in the cache map (as if-init or as a statement of their own)
+		type lookup struct{ entry, ok types.Object }
+		var lookups []lookup
+		ast.Inspect(prep.Body, func(n ast.Node) bool {
+			as, ok := n.(*ast.AssignStmt)
+			if !ok || len(as.Lhs) != 2 || len(as.Rhs) != 1 {
+				return true
+			}
+			ix, ok := unparen(as.Rhs[0]).(*ast.IndexExpr)
+			if !ok || !fieldSel(pinfo, ix.X, la.stmtsF) {
+				return true
+			}
+			entry, okv := as.Lhs[0].(*ast.Ident)
+			okid, okk := as.Lhs[1].(*ast.Ident)
+			if okv && okk {
+				lookups = append(lookups, lookup{pinfo.ObjectOf(entry), pinfo.ObjectOf(okid)})
+			}
+			return true
+		})
+		ast.Inspect(prep.Body, func(n ast.Node) bool {
+			ifs, ok := n.(*ast.IfStmt)
+			if !ok {
+				return true
+			}
+			var lk *lookup
+			ast.Inspect(ifs.Cond, func(x ast.Node) bool {
+				if id, ok := x.(*ast.Ident); ok {
+					for i := range lookups {
+						if lookups[i].ok != nil && pinfo.Uses[id] == lookups[i].ok {
+							lk = &lookups[i]
+						}
+					}
+				}
+				return true
+			})
+			if lk == nil || lk.entry == nil {
+				return true
+			}
+			nCond++
+			bf := boolTable(pinfo, ifs.Cond)
+			okName := lk.ok.Name()
+			txAtom := lk.entry.Name() + "." + txF.Name()
+			var problems []string
+			if !bf.has(okName) || !bf.has(txAtom) || isTxParam == "" || !bf.has(isTxParam) {
+				problems = append(problems, "condition does not mention the lookup result, the entry's Transaction flag and the caller's transaction flag")
+			} else {
+				if ok1, _ := bf.forAll(map[string]bool{okName: true, txAtom: false}, true); !ok1 {
+					problems = append(problems, "an entry prepared on the pool is rejected for some caller: the same text is prepared again and the cached statement is overwritten without being closed")
+				}
+				if ok2, _ := bf.forAll(map[string]bool{okName: true, txAtom: true, isTxParam: false}, false); !ok2 {
+					problems = append(problems, "a transaction-bound statement is handed to a caller outside the transaction")
+				}
+				if ok3, _ := bf.forAll(map[string]bool{okName: false}, false); !ok3 {
+					problems = append(problems, "a hit is reported without an entry")
+				}
+			}
+			ri.Check(len(problems) == 0, prep.Name(), "cache-hit condition", ifs.Cond.Pos(), "pool entries serve everyone, transaction entries serve transactions", strings.Join(problems, "; "))
+			return true
+		})
+		ri.Check(nCond >= 2, prep.Name(), "double-checked lookup conditions", prep.Body.Pos(), "both lookups found", "the double-checked cache lookup is gone")
+	}
 	ri.Check(nFail >= 1, prep.Name(), "failing arm exists", prep.Body.Pos(), "prepare error is returned", "no failing arm found after PrepareContext")
 	ri.Check(nHit >= 2, prep.Name(), "two cache-hit arms (double-checked)", prep.Body.Pos(), "read-locked and write-locked lookups", fmt.Sprintf("%d cache-hit arms, expected the double-checked pair", nHit))
 
